@@ -15,9 +15,16 @@ from harness import core, machine, tlaval
 CLASSES = {
     "monoidal": {"mc": "MC_Monoidal", "trace": "Trace_Monoidal",
                  "adapter": ("harness.adapters.free", "MonoidalAdapter")},
+    "tie": {"mc": "MC_MonoidalTie", "trace": "Trace_MonoidalTie",
+            "adapter": ("harness.adapters.free", "MonoidalAdapter")},
     "rigid": {"mc": "MC_Rigid", "trace": "Trace_Rigid",
               "adapter": ("harness.adapters.free", "RigidAdapter")},
 }
+# the two-generator machine (split, state and their daggers) is explored deeper: ties, longer normalisations
+TIE_TIERS = {"quick": {"MaxBoxes": 5, "MaxWidth": 2, "states": 250, "sim_num": 40, "sim_depth": 8, "sim_MaxBoxes": 6, "sim_MaxWidth": 3,
+                       "spiral_cups": 2, "spiral_walks": 2, "spiral_depth": 4},
+             "thorough": {"MaxBoxes": 6, "MaxWidth": 3, "states": 8000, "sim_num": 1000, "sim_depth": 12, "sim_MaxBoxes": 8, "sim_MaxWidth": 3,
+                          "spiral_cups": 2, "spiral_walks": 2, "spiral_depth": 4}}
 # bounds of the rigid machine (its signature has 13 generators and as many daggers)
 RIGID_TIERS = {"quick": {"MaxBoxes": 2, "MaxWidth": 3, "states": 220, "sim_num": 80, "sim_depth": 8, "sim_MaxBoxes": 4, "sim_MaxWidth": 4},
                "thorough": {"MaxBoxes": 3, "MaxWidth": 3, "states": 6000, "sim_num": 2000, "sim_depth": 12, "sim_MaxBoxes": 5, "sim_MaxWidth": 4}}
@@ -159,7 +166,7 @@ def canary(trace_module, judge, trace_file, verdicts, work, ops):
 
 def run(prop, judge, tier, seed, t0, cls="monoidal", invariants=(), drift=False, extra_hook=None,
         families=False, keep_states=False):
-    cfgt = RIGID_TIERS[tier] if cls == "rigid" else TIERS[tier]
+    cfgt = RIGID_TIERS[tier] if cls == "rigid" else TIE_TIERS[tier] if cls == "tie" else TIERS[tier]
     ops = OPS[prop]
     A = get_adapter(cls)
     mc, trace_module = CLASSES[cls]["mc"], CLASSES[cls]["trace"]
